@@ -65,7 +65,35 @@ def global_fact(ex, f):
     """A fact that holds in every state (the definition of a fresh function symbol, an instance of a proved lemma, a
     congruence): kept per Exec and added to the hypotheses of every obligation generated afterwards.  Needed because
     vector element closures are evaluated lazily, possibly while a formula for another state is being built."""
+    if is_z3(f):
+        key = alpha_key(f)
+        seen = ex.__dict__.setdefault("_gf_keys", set())
+        if key in seen:
+            return              # the same fact up to the names of its bound variables
+        seen.add(key)
     ex.__dict__.setdefault("global_facts", []).append(f)
+
+
+def alpha_key(t, _memo={}):
+    """Structural key of a term that ignores the names of bound variables (z3 keeps them in quantifiers)."""
+    i = t.get_id()
+    hit = _memo.get(i)
+    if hit is not None and hit[0].eq(t):
+        return hit[1]
+    if z3.is_quantifier(t):
+        k = ("Q", t.is_forall(), tuple(str(t.var_sort(j)) for j in range(t.num_vars())), alpha_key(t.body()))
+    elif z3.is_var(t):
+        k = ("v", z3.get_var_index(t), str(t.sort()))
+    elif z3.is_app(t):
+        if t.num_args() == 0:
+            k = ("c", t.sexpr())
+        else:
+            k = ("a", t.decl().name(), t.decl().kind(), tuple(alpha_key(c) for c in t.children()))
+    else:
+        k = ("x", t.sexpr())
+    k = hash(k)
+    _memo[i] = (t, k)
+    return k
 
 
 def _close(params, f):
@@ -1087,6 +1115,15 @@ class ColNames(tuple):
     tab = None
 
 
+@method(ColNames, "get_loc")
+def colnames_get_loc(ex, st, o, args, kwargs, node):
+    nm = st.get(args[0])
+    names = o if isinstance(o, tuple) else st.get(o)
+    if not isinstance(nm, str) or nm not in names:
+        raise Unsupported("columns.get_loc of an unknown / symbolic name")
+    return list(names).index(nm)
+
+
 def pd_dataframe(ex, st, args, kwargs, node):
     v = st.get(args[0]) if args else None
     if v is None and set(kwargs) == {"columns"}:
@@ -1293,6 +1330,31 @@ def tab_indexer_get(ex, st, ind, t, i, node):
 
 
 def tab_indexer_set(ex, st, ind, t, i, val, node):
+    if ind.kind == "iloc" and isinstance(i, tuple) and len(i) == 2:
+        # df.iloc[row, column position] = scalar
+        r, c = (st.get(x) if isinstance(x, Ref) else x for x in i)
+        v = st.get(val)
+        if isinstance(c, int) and not isinstance(c, bool) and 0 <= c < len(t.cols) and (isinstance(r, int) or (is_z3(r) and r.sort() == I)) \
+                and not isinstance(v, (Vec, Tab, ListV, tuple)):
+            used(ex, "df.iloc[r, c] = scalar writes that one cell")
+            col = list(t.cols)[c]
+            j = norm_index(t.n, r)
+            bounds(ex, st, t.n, j, node)
+            old = t.cols[col]
+            probe = old(z3.IntVal(0))
+            if isinstance(probe, NF):
+                v = as_nf(v)
+            elif isinstance(v, NF):
+                raise Unsupported("iloc store of a nullable value into a non-nullable column")
+            elif is_real(probe) and not is_real(v):
+                v = to_real(v)
+            elif is_z3(to_z3(probe)) and is_z3(to_z3(v)) and to_z3(probe).sort() != to_z3(v).sort():
+                raise Unsupported("iloc store changing the column's type")
+            cols = dict(t.cols)
+            cols[col] = lambda kk, old=old, v=v, j=j: merge_val(to_z3(kk) == to_z3(j), v, old(kk))
+            st.put(ind.ref, Tab(t.n, cols, t.idx, t.elts))
+            return [st]
+        raise Unsupported("iloc[r, c] store of this shape")
     if ind.kind == "loc" and isinstance(i, tuple) and len(i) == 2:
         rows, col = i
         rows = st.get(rows) if isinstance(rows, Ref) else rows
@@ -1366,7 +1428,19 @@ def t_itertuples(ex, st, o, args, kwargs, node):
 def t_reset_index(ex, st, o, args, kwargs, node):
     t = st.get(o)
     if st.get(kwargs.get("drop", False)) is not True:
-        raise Unsupported("reset_index(drop=False)")
+        # the old row labels become the first column, named "index"
+        if args or set(kwargs) - {"drop"} or "index" in t.cols or getattr(t.idx, "tlabels", None) is not None:
+            raise Unsupported("reset_index() of this shape")
+        used(ex, "reset_index(): rows renumbered 0..n-1, the old labels kept as a first column 'index'")
+        lab = t.idx.labels if (t.idx is not None and t.idx.labels is not None) else None
+        if isinstance(t.idx, RangeIdx):
+            lab = lambda k: to_z3(k)
+        if lab is None:
+            L = z3.Function(fresh_name("old_label"), I, I)
+            lab = lambda k, L=L: L(to_z3(k))
+        cols = {"index": lab}
+        cols.update(t.cols)
+        return st.alloc(Tab(t.n, cols, RangeIdx(t.n), dict(t.elts, index=dsl.Int)))
     return st.alloc(Tab(t.n, t.cols, RangeIdx(t.n), t.elts))
 
 
@@ -1821,8 +1895,8 @@ class UniqueOf:
     """col.unique(): the distinct values of a column in order of first appearance (only its length and its use as the
     index of a rank table are modelled)"""
 
-    def __init__(self, v, count):
-        self.v, self.n = v, count
+    def __init__(self, v, count, at=None):
+        self.v, self.n, self.at = v, count, at
 
 
 class RankMap:
@@ -1840,6 +1914,27 @@ def v_unique(ex, st, o, args, kwargs, node):
     st.assume(u <= to_z3(v.n))
     used(ex, "Series.unique(): distinct values in order of first appearance")
     return UniqueOf(v, u)
+
+
+@builtin("pandas.unique")
+def pd_unique(ex, st, args, kwargs, node):
+    if len(args) != 1 or kwargs or not isinstance(st.get(args[0]), Vec):
+        raise Unsupported("pd.unique of a non-vector")
+    u = v_unique(ex, st, args[0], [], {}, node)
+    # the elements themselves: value j is the one first seen at position first(j); first is strictly increasing, the values
+    # are pairwise distinct and every element of the vector is one of them
+    v = u.v
+    n, m = to_z3(v.n), to_z3(u.n)
+    F, G = z3.Function(fresh_name("first_seen"), I, I), z3.Function(fresh_name("unique_no"), I, I)
+    j, j2, k = fresh(I, "j"), fresh(I, "j"), fresh(I, "k")
+    with binding(j, j2, k):
+        ej, ej2, ek, egk = to_z3(v.at(F(j))), to_z3(v.at(F(j2))), to_z3(v.at(k)), to_z3(v.at(F(G(k))))
+    st.assume((m == 0) == (n == 0))
+    st.assume(z3.ForAll([j], z3.Implies(z3.And(0 <= j, j < m), z3.And(0 <= F(j), F(j) < n)), patterns=[F(j)]))
+    st.assume(z3.ForAll([j, j2], z3.Implies(z3.And(0 <= j, j < j2, j2 < m), z3.And(F(j) < F(j2), ej != ej2))))
+    st.assume(z3.ForAll([k], z3.Implies(z3.And(0 <= k, k < n), z3.And(0 <= G(k), G(k) < m, egk == ek, F(G(k)) <= k)), patterns=[G(k)]))
+    u.at = lambda jj: v.at(F(to_z3(jj)))
+    return u
 
 
 _pd_series_plain = BUILTINS["pandas.Series"]
